@@ -69,7 +69,9 @@ def make_renderers(env: "Env") -> Dict[str, Dict[str, Any]]:
     C = env.C
     out: Dict[str, Dict[str, Any]] = {"sql": {"default": env.DefaultSQL}, "dbml": {"default": env.DefaultDBML}}
     for lang in ("sql", "dbml"):
-        for flavour, types in (("tag", TAGGED_TYPES_FULL), ("partial", TAGGED_TYPES_PARTIAL)):
+        # "late" starts like "partial"; further handlers are registered later, through the public decorator,
+        # after renderings have already happened (C16 operation late_register)
+        for flavour, types in (("tag", TAGGED_TYPES_FULL), ("partial", TAGGED_TYPES_PARTIAL), ("late", TAGGED_TYPES_PARTIAL)):
             fl = f"{flavour}{lang}"
 
             def render_db(cls, db, _fl=fl):
